@@ -8,6 +8,7 @@
     * `rows_consistent`       the row clauses of GridConsistent hold exactly for the row pass of one row
                               group: shared top / bottom edges, each cell = its rows + inner spacing,
                               rows chained by the spacing and filling the group, no negative row height
+    * `model_no_overlap`      cells with disjoint grid slots have disjoint border boxes in both axes
     * `fixed_sum`             fixedTableLayout: Σ columns + spacing·(n+1) = table width ≥ specified width
     * `fixed_nonneg`          fixedTableLayout: no negative column (all inputs; col widths ≥ 0 as the
                               validator guarantees)
@@ -154,6 +155,64 @@ example : ∃ g y rows, ModelRows g y rows ∧ g.cells.length = 2 ∧ rows.lengt
   · exact ⟨⟨1, 0, 2, 10, 102⟩, by decide +kernel, rfl, rfl, rfl, rfl⟩
   · exact ⟨⟨2, 0, 1, 10, 100⟩, by decide +kernel, rfl, rfl, rfl, rfl⟩
 
+/-! ## no overlap -/
+
+/-- The geometry the model computes (placeCell for x / width, rowPass for y / height) is overlap-free in
+    both axes: two cells whose grid slots are disjoint have disjoint border boxes (exactly, ε = 0);
+    hence, if the slots are exclusive up to the §17.5 exception, so are the boxes. -/
+theorem model_no_overlap (g : Grid) (ws : List Rat) (y : Rat) (rows : List RRow)
+    (hmc : ModelColumns g ws) (hmr : ModelRows g y rows)
+    (hws : ∀ w ∈ ws, 0 ≤ w) (hsx : 0 ≤ g.sx) (hsy : 0 ≤ g.sy)
+    (hw : ws ≠ [] → g.tw = sumR ws + g.sx * ((ws.length : Rat) + 1)) :
+    NoOverlap 0 g ∧ (SlotsExclusive g → OverlapOnlyExcepted 0 g) := by
+  have hx := (positions_consistent g ws hmc hws hsx hw).2.2.2
+  have hno : NoOverlap 0 g := by
+    intro c hc d hd hs
+    unfold boxesDisjoint leq
+    rcases hs with h | h | h | h
+    · have := hx c hc d hd h
+      cases hr : g.rtl <;> simp only [hr, Bool.false_eq_true, if_false, if_true] at this
+      · left; grind
+      · right; left; grind
+    · have := hx d hd c hc h
+      cases hr : g.rtl <;> simp only [hr, Bool.false_eq_true, if_false, if_true] at this
+      · right; left; grind
+      · left; grind
+    · have := rows_disjoint g y rows hmr hsy c d hc hd h
+      right; right; left; grind
+    · have := rows_disjoint g y rows hmr hsy d c hd hc h
+      right; right; right; grind
+  refine ⟨hno, fun hs => ?_⟩
+  unfold SlotsExclusive at hs
+  unfold OverlapOnlyExcepted
+  refine List.Pairwise.imp_of_mem ?_ hs
+  intro c d hc hd h
+  rcases h with h | h
+  · exact Or.inl (hno c hc d hd h)
+  · exact Or.inr h
+
+/-- the hypotheses of `model_no_overlap` are jointly satisfiable: 3 columns, 2 rows, a cell spanning two
+    rows beside a cell spanning two columns -/
+example : ∃ g ws y rows, ModelColumns g ws ∧ ModelRows g y rows ∧ (∀ w ∈ ws, 0 ≤ w) ∧ 0 ≤ g.sx ∧ 0 ≤ g.sy ∧
+    g.cells.length = 2 ∧ (ws ≠ [] → g.tw = sumR ws + g.sx * ((ws.length : Rat) + 1)) := by
+  refine ⟨{ rtl := false, tx := 0, ty := 8, tw := 68, th := 106, sx := 2, sy := 2, specW := none,
+            cols := columnTracks false 0 68 2 [10, 20, 30],
+            groups := [⟨10, 102, [⟨10, 100⟩, ⟨112, 0⟩]⟩],
+            cells := [⟨0, 1, 0, 2, 2, 10, 10, 102, 10, 0, 0⟩, ⟨1, 2, 0, 1, 14, 10, 52, 100, 52, 0, 0⟩] },
+          [10, 20, 30], 10, [⟨none, [⟨1, 2, 20⟩, ⟨2, 1, 100⟩]⟩, ⟨none, []⟩],
+          ⟨rfl, ?_⟩, ⟨by decide +kernel, ?_⟩, by decide +kernel, by decide +kernel, by decide +kernel, rfl,
+          fun _ => by decide +kernel⟩
+  · intro c hc
+    simp only [List.mem_cons, List.not_mem_nil, or_false] at hc
+    rcases hc with rfl | rfl
+    · exact ⟨⟨0, 1, 0⟩, ⟨0, 1, 2, 10⟩, by decide +kernel, rfl, rfl, rfl, by decide +kernel, rfl⟩
+    · exact ⟨⟨1, 7, 0⟩, ⟨1, 2, 14, 52⟩, by decide +kernel, rfl, rfl, rfl, by decide +kernel, rfl⟩
+  · intro c hc
+    simp only [List.mem_cons, List.not_mem_nil, or_false] at hc
+    rcases hc with rfl | rfl
+    · exact ⟨⟨1, 0, 2, 10, 102⟩, by decide +kernel, rfl, rfl, rfl, rfl⟩
+    · exact ⟨⟨2, 0, 1, 10, 100⟩, by decide +kernel, rfl, rfl, rfl, rfl⟩
+
 /-! ## the judge -/
 
 /-- the judge run on the implementation's numbers accepts exactly the grids satisfying the spec -/
@@ -161,9 +220,9 @@ theorem judge_iff (ε : Rat) (g : Grid) : judge ε g = [] ↔ GridConsistent ε 
   unfold judge
   simp only [List.append_eq_nil_iff, ite_eq_left_iff, reduceCtorEq, imp_false, Decidable.not_not]
   constructor
-  · rintro ⟨⟨⟨⟨⟨⟨⟨⟨⟨h1, h2⟩, h3⟩, h4⟩, h5⟩, h6⟩, h7⟩, h8⟩, h9⟩, h10⟩
-    exact ⟨h1, h2, fun c hc => ⟨h3 c hc, h4 c hc⟩, h5, h6, ⟨h7, h8⟩, h9, h10⟩
-  · rintro ⟨h1, h2, h3, h5, h6, ⟨h7, h8⟩, h9, h10⟩
-    exact ⟨⟨⟨⟨⟨⟨⟨⟨⟨h1, h2⟩, fun c hc => (h3 c hc).1⟩, fun c hc => (h3 c hc).2⟩, h5⟩, h6⟩, h7⟩, h8⟩, h9⟩, h10⟩
+  · rintro ⟨⟨⟨⟨⟨⟨⟨⟨⟨⟨⟨h1, h2⟩, h3⟩, h4⟩, h5⟩, h6⟩, h7⟩, h8⟩, h9⟩, h11⟩, h12⟩, h10⟩
+    exact ⟨h1, h2, fun c hc => ⟨h3 c hc, h4 c hc⟩, h5, h6, ⟨h7, h8⟩, h9, h11, h12, h10⟩
+  · rintro ⟨h1, h2, h3, h5, h6, ⟨h7, h8⟩, h9, h11, h12, h10⟩
+    exact ⟨⟨⟨⟨⟨⟨⟨⟨⟨⟨⟨h1, h2⟩, fun c hc => (h3 c hc).1⟩, fun c hc => (h3 c hc).2⟩, h5⟩, h6⟩, h7⟩, h8⟩, h9⟩, h11⟩, h12⟩, h10⟩
 
 end WR.Props.C13
